@@ -38,9 +38,9 @@ constexpr auto round_check(T const x) noexcept -> T
             !is_finite(x) ? x
                           :
                           // signed-zero cases
-            etl::numeric_limits<T>::epsilon() > abs(x) ? x
-                                                       :
-                                                       // else
+            x == T(0) ? x
+                      :
+                      // else
             sgn(x) * round_int(abs(x))
     );
 }
